@@ -12,7 +12,7 @@ import (
 func init() {
 	Register(&Property{
 		ID:    "C20",
-		Floor: 44,
+		Floor: 60,
 		Clauses: "send side: connOutflow.used is written only by consume, consume is called only from Stream.appendOutFramesLocked, Stream.outmaxsent is written only there; " +
 			"the size handed to appendStreamFrame is, whenever off+size exceeds outmaxsent, cut by min(…, outmaxsent+outflow.avail()); dataToSend gets both bounds clipped to outwin; " +
 			"consume(end-outmaxsent) and outmaxsent=end are paired, guarded by end>outmaxsent, end is offset+length of the frame actually appended, and that test is passed on every path after a successful append; " +
@@ -36,7 +36,7 @@ func c20(c *Ctx) {
 
 	// ---- ownership
 	c.Writers("quic.connOutflow.used", consume)
-	c.StoreShapes(consume, "quic.connOutflow.used", "add:$0")
+	c.QaStoreShapes(consume, "quic.connOutflow.used", "add:$0")
 	c.Callers(consume, aof)
 	c.Writers("quic.Stream.outmaxsent", aof)
 	c.Writers("quic.connOutflow.max", "(*quic.connOutflow).setMaxData")
@@ -47,47 +47,47 @@ func c20(c *Ctx) {
 		c.Check(len(refs) == 0, "callers", "(quic.debugFrameStream).write (test-only STREAM writer that bypasses flow control) is not referenced by non-test code", dw.Pos(),
 			"no static call, interface call or value reference", fmt.Sprintf("%d reference(s) from non-test code", len(refs)))
 	}
-	c.Has("(*quic.connOutflow).avail", ResultIs(0, "($r.max-$r.used)"))
+	c.Has("(*quic.connOutflow).avail", QaResultIs(0, "($r.max-$r.used)"))
 
 	// ---- clamp before appendStreamFrame
 	const DTS = "dataToSend(min($r.out.start,$r.outwin),min($r.outflushed,$r.outwin),$r.outunsent,$r.outacked,$2)"
 	asf := Calls(asfName)
-	c.ClampedOrExempt(aof, asf, 3, "min(…, outmaxsent+outflow.avail())",
-		MinWith("($r.outmaxsent+avail(&$r.conn.streams.outflow))"), DTS+"#0+"+DTS+"#1 <= $r.outmaxsent")
+	c.QaClampedOrExempt(aof, asf, 3, "min(…, outmaxsent+outflow.avail())",
+		QaMinWith("($r.outmaxsent+avail(&$r.conn.streams.outflow))"), DTS+"#0+"+DTS+"#1 <= $r.outmaxsent")
 	c.Has(aof, asf.ArgIs(2, DTS+"#0"))
 	dts := Calls("quic.dataToSend")
-	c.ArgSatisfies(aof, dts, 0, "min(…, outwin)", MinWith("$r.outwin"))
-	c.ArgSatisfies(aof, dts, 1, "min(…, outwin)", MinWith("$r.outwin"))
+	c.QaArgSatisfies(aof, dts, 0, "min(…, outwin)", QaMinWith("$r.outwin"))
+	c.QaArgSatisfies(aof, dts, 1, "min(…, outwin)", QaMinWith("$r.outwin"))
 	c.Count(aof, dts, 1, 1)
 	c.Count(aof, asf, 1, 1)
 
 	// ---- paired accounting after a successful append
-	c20accounting(c, aof)
+	qaC20accounting(c, aof)
 
 	// ---- what may become sendable
 	fl := S + "flushLocked"
-	c.ArgSatisfies(fl, Calls(add).ArgIs(0, "&$r.outunsent"), 2, "min(outwin, …)", MinWith("$r.outwin"))
+	c.QaArgSatisfies(fl, Calls(add).ArgIs(0, "&$r.outunsent"), 2, "min(outwin, …)", QaMinWith("$r.outwin"))
 	c.Guard(fl, Calls(add).ArgIs(0, "&$r.outunsent"), "$r.outflushed < $r.outwin")
 	hm := S + "handleMaxStreamData"
-	c.ArgSatisfies(hm, Calls(add).ArgIs(0, "&$r.outunsent"), 2, "min(new limit, …)", MinWith("$0"))
+	c.QaArgSatisfies(hm, Calls(add).ArgIs(0, "&$r.outunsent"), 2, "min(new limit, …)", QaMinWith("$0"))
 	c.NeverAfter(hm, Stores("quic.Stream.outwin"), Calls(add).ArgIs(0, "&$r.outunsent"), false)
 
 	// ---- monotone limits the peer gave us / we gave the peer
-	c.StoreShapes(hm, "quic.Stream.outwin", "guarded", "max")
+	c.QaStoreShapes(hm, "quic.Stream.outwin", "guarded", "max")
 	c.Has(hm, Stores("quic.Stream.outwin").StoredIs("$0"))
-	c.StoreShapes("(*quic.connOutflow).setMaxData", "quic.connOutflow.max", "max", "guarded")
+	c.QaStoreShapes("(*quic.connOutflow).setMaxData", "quic.connOutflow.max", "max", "guarded")
 	c.Has("(*quic.Conn).handleMaxDataFrame", Calls("(*quic.connOutflow).setMaxData").ArgIs(1, "consumeMaxDataFrame($1)#0"))
 	c.Has("(*quic.Conn).handleMaxStreamDataFrame", Calls(hm).ArgIs(1, "consumeMaxStreamDataFrame($1)#1"))
 	c.Writers("quic.localStreamLimits.max", "(*quic.localStreamLimits).setMax")
-	c.StoreShapes("(*quic.localStreamLimits).setMax", "quic.localStreamLimits.max", "max", "guarded")
+	c.QaStoreShapes("(*quic.localStreamLimits).setMax", "quic.localStreamLimits.max", "max", "guarded")
 	c.Writers("quic.remoteStreamLimits.max", "(*quic.remoteStreamLimits).init", "(*quic.remoteStreamLimits).maybeUpdateMax")
-	c.StoreShapes("(*quic.remoteStreamLimits).maybeUpdateMax", "quic.remoteStreamLimits.max", "guarded", "max")
+	c.QaStoreShapes("(*quic.remoteStreamLimits).maybeUpdateMax", "quic.remoteStreamLimits.max", "guarded", "max")
 	// MAX_DATA we advertise
 	amd := "(*quic.Conn).appendMaxDataFrame"
 	c.Writers("quic.connInflow.newLimit", "(*quic.Conn).inflowInit", "(*quic.Conn).sendMaxDataUpdate", amd)
 	c.Writers("quic.connInflow.sentLimit", "(*quic.Conn).inflowInit", amd)
-	c.StoreShapes(amd, "quic.connInflow.newLimit", "add:Swap(&$r.streams.inflow.credit,0)")
-	c.StoreShapes("(*quic.Conn).sendMaxDataUpdate", "quic.connInflow.newLimit", "add:Swap(&$r.streams.inflow.credit,0)")
+	c.QaStoreShapes(amd, "quic.connInflow.newLimit", "add:Swap(&$r.streams.inflow.credit,0)")
+	c.QaStoreShapes("(*quic.Conn).sendMaxDataUpdate", "quic.connInflow.newLimit", "add:Swap(&$r.streams.inflow.credit,0)")
 	wmd := Calls("(*quic.packetWriter).appendMaxDataFrame")
 	c.Has(amd, wmd.ArgIs(1, "$r.streams.inflow.newLimit"))
 	c.Has(amd, Stores("quic.connInflow.sentLimit").StoredIs("$r.streams.inflow.newLimit"))
@@ -97,14 +97,14 @@ func c20(c *Ctx) {
 	// MAX_STREAM_DATA we advertise
 	aif := S + "appendInFramesLocked"
 	c.Writers("quic.Stream.inwin", aif, "(*quic.Conn).newLocalStream", "(*quic.Conn).streamForFrame")
-	c20framedValueStored(c, aif, "(*quic.packetWriter).appendMaxStreamDataFrame", 2, "quic.Stream.inwin")
+	qaC20framedValueStored(c, aif, "(*quic.packetWriter).appendMaxStreamDataFrame", 2, "quic.Stream.inwin")
 
 	// ---- receive side enforcement
 	csb := S + "checkStreamBounds"
 	c.Reject(csb, RetOK(), "$0 > $r.inwin")
 	fc, _ := c.P.ConstInt("quic.errFlowControl")
 	code := Stores("quic.localTransportError.code").StoredIs(fmt.Sprint(fc))
-	c.Has(csb, c.Under_quica(code, "$0 > $r.inwin"))
+	c.Has(csb, c.QaUnder(code, "$0 > $r.inwin"))
 	c.Callers(csb, S+"handleData", S+"handleReset")
 	hd, hr := S+"handleData", S+"handleReset"
 	hsbr := "(*quic.Conn).handleStreamBytesReceived"
@@ -112,13 +112,13 @@ func c20(c *Ctx) {
 	c.Has(hd, Calls(csb).ArgIs(1, "($0+len($1))"))
 	c.Reject(hd, Union(Calls("(*quic.pipe).writeAt"), Calls(hsbr)), "checkStreamBounds($r,($0+len($1)),$2) != nil")
 	c.Reject(hr, Union(Stores("quic.Stream.insize"), Stores("quic.Stream.inresetcode"), Calls(hsbr)), "checkStreamBounds($r,$1,true) != nil")
-	c.GuardAny(hd, ResultNilErr(), []string{"checkStreamBounds($r,($0+len($1)),$2) == nil"})
-	c.GuardAny(hr, ResultNilErr(), []string{"checkStreamBounds($r,$1,true) == nil"})
+	c.QaGuardAny(hd, QaResultNilErr(), []string{"checkStreamBounds($r,($0+len($1)),$2) == nil"})
+	c.QaGuardAny(hr, QaResultNilErr(), []string{"checkStreamBounds($r,$1,true) == nil"})
 	// connection-level
 	c.Reject(hsbr, RetOK(), "$r.streams.inflow.usedLimit > $r.streams.inflow.sentLimit")
-	c.Has(hsbr, c.Under_quica(code, "$r.streams.inflow.usedLimit > $r.streams.inflow.sentLimit"))
+	c.Has(hsbr, c.QaUnder(code, "$r.streams.inflow.usedLimit > $r.streams.inflow.sentLimit"))
 	c.Writers("quic.connInflow.usedLimit", hsbr)
-	c.StoreShapes(hsbr, "quic.connInflow.usedLimit", "add:$0")
+	c.QaStoreShapes(hsbr, "quic.connInflow.usedLimit", "add:$0")
 	c.Before(hsbr, Stores("quic.connInflow.usedLimit"), Returns())
 	c.Callers(hsbr, hd, hr)
 	c.PassThroughIncl(hd, c.Edge("$0+len($1) > $r.in.end"), Calls(hsbr).ArgIs(1, "(($0+len($1))-$r.in.end)"))
@@ -130,10 +130,10 @@ func c20(c *Ctx) {
 	c.CallAfterIncl("(*quic.Conn).handleResetStreamFrame", c.Edge("handleReset(streamForFrame($r,$0,consumeResetStreamFrame($2)#0,1),consumeResetStreamFrame($2)#1,consumeResetStreamFrame($2)#2) != nil"), "(*quic.Conn).abort")
 }
 
-// c20accounting: after appendStreamFrame succeeded, the test end>outmaxsent is
+// qaC20accounting: after appendStreamFrame succeeded, the test end>outmaxsent is
 // passed on every path, and under it consume(end-outmaxsent) and
 // outmaxsent=end are executed together with end = offset + len(frame data).
-func c20accounting(c *Ctx, aof string) {
+func qaC20accounting(c *Ctx, aof string) {
 	fn := c.MustFn(aof)
 	if fn == nil {
 		return
@@ -149,27 +149,27 @@ func c20accounting(c *Ctx, aof string) {
 	asf := asfs[0].(*ssa.Call)
 	st := stores[0].(*ssa.Store)
 	con := cons[0].(*ssa.Call)
-	end := StripConv_quica(st.Val)
+	end := QaStripConv(st.Val)
 	// guarded by end > outmaxsent
-	c.Check(StoreShape(st) == "guarded", "store-shape", name("outmaxsent = end only under end > outmaxsent (never moves back)"), st.Pos(), "guarded",
-		"store `"+DescribeInstr(st)+"` has shape "+StoreShape(st))
+	c.Check(QaStoreShape(st) == "guarded", "store-shape", name("outmaxsent = end only under end > outmaxsent (never moves back)"), st.Pos(), "guarded",
+		"store `"+DescribeInstr(st)+"` has shape "+QaStoreShape(st))
 	// consume argument is end - outmaxsent (old value)
 	okArg := false
-	if b, ok := StripConv_quica(con.Call.Args[1]).(*ssa.BinOp); ok && b.Op == token.SUB && StripConv_quica(b.X) == end {
-		if u, ok := StripConv_quica(b.Y).(*ssa.UnOp); ok && u.Op == token.MUL && Term(u) == "$r.outmaxsent" {
+	if b, ok := QaStripConv(con.Call.Args[1]).(*ssa.BinOp); ok && b.Op == token.SUB && QaStripConv(b.X) == end {
+		if u, ok := QaStripConv(b.Y).(*ssa.UnOp); ok && u.Op == token.MUL && Term(u) == "$r.outmaxsent" {
 			okArg = true
 		}
 	}
 	c.Check(okArg, "same-value", name("consume(n) with n = new outmaxsent - old outmaxsent"), con.Pos(), Term(con.Call.Args[1]),
 		"consume is called with `"+Term(con.Call.Args[1])+"`, not the amount by which outmaxsent grows")
-	c.Check(con.Block() == st.Block() && posBefore(con, st), "paired", name("consume precedes the outmaxsent store in the same block"), con.Pos(), "",
+	c.Check(con.Block() == st.Block() && qaPosBefore(con, st), "paired", name("consume precedes the outmaxsent store in the same block"), con.Pos(), "",
 		"consume and the outmaxsent store are not executed together (or consume reads the already updated outmaxsent)")
 	// end = off + len(data returned by appendStreamFrame)
 	okEnd := false
 	if b, ok := end.(*ssa.BinOp); ok && b.Op == token.ADD {
 		for i, side := range []ssa.Value{b.X, b.Y} {
 			other := []ssa.Value{b.Y, b.X}[i]
-			if StripConv_quica(side) == StripConv_quica(asf.Call.Args[2]) && isLenOfResult(StripConv_quica(other), asf) {
+			if QaStripConv(side) == QaStripConv(asf.Call.Args[2]) && qaIsLenOfResult(QaStripConv(other), asf) {
 				okEnd = true
 			}
 		}
@@ -181,7 +181,7 @@ func c20accounting(c *Ctx, aof string) {
 	for _, f := range FactsAtInstr(st) {
 		want := Linearize(st.Val)
 		_ = want
-		if f.If != nil && DependsOn(f.If.Cond, func(v ssa.Value) bool { return v == end }) && DependsOn(f.If.Cond, c.P.IsLoadOf("quic.Stream.outmaxsent")) {
+		if f.If != nil && DependsOn(f.If.Cond, func(v ssa.Value) bool { return v == end }) && DependsOn(f.If.Cond, c.P.QaIsLoadOf("quic.Stream.outmaxsent")) {
 			guard = f.If
 		}
 	}
@@ -212,7 +212,7 @@ func c20accounting(c *Ctx, aof string) {
 	}}, Union(Calls("(*quic.connOutflow).consume"), Stores("quic.Stream.outmaxsent")), true)
 }
 
-func posBefore(a, b ssa.Instruction) bool {
+func qaPosBefore(a, b ssa.Instruction) bool {
 	for _, in := range a.Block().Instrs {
 		if in == a {
 			return true
@@ -224,8 +224,8 @@ func posBefore(a, b ssa.Instruction) bool {
 	return false
 }
 
-// isLenOfResult: v is len(x) where x is result #0 of call.
-func isLenOfResult(v ssa.Value, call *ssa.Call) bool {
+// qaIsLenOfResult: v is len(x) where x is result #0 of call.
+func qaIsLenOfResult(v ssa.Value, call *ssa.Call) bool {
 	c, ok := v.(*ssa.Call)
 	if !ok {
 		return false
@@ -238,10 +238,10 @@ func isLenOfResult(v ssa.Value, call *ssa.Call) bool {
 	return ok && ex.Tuple == ssa.Value(call) && ex.Index == 0
 }
 
-// c20framedValueStored: in fnName the value stored into field is the very
+// qaC20framedValueStored: in fnName the value stored into field is the very
 // value passed as argument idx to the frame appender, and the store happens
 // only after the appender reported success.
-func c20framedValueStored(c *Ctx, fnName, appender string, idx int, field string) {
+func qaC20framedValueStored(c *Ctx, fnName, appender string, idx int, field string) {
 	fn := c.MustFn(fnName)
 	if fn == nil {
 		return
@@ -255,7 +255,7 @@ func c20framedValueStored(c *Ctx, fnName, appender string, idx int, field string
 	}
 	call := calls[0].(*ssa.Call)
 	st := stores[0].(*ssa.Store)
-	if StripConv_quica(call.Call.Args[idx]) != StripConv_quica(st.Val) {
+	if QaStripConv(call.Call.Args[idx]) != QaStripConv(st.Val) {
 		c.Fail("same-value", construct, st.Pos(), "stored `"+Term(st.Val)+"` but framed `"+Term(call.Call.Args[idx])+"`")
 		return
 	}
